@@ -83,7 +83,7 @@ _TABLE0 = None
 
 
 _TIMEOUTS = [0]          # a shard stops after 3 watchdog expiries (each costs >= 20 s); the rest is reported as a cap
-_SHARD_TIMER = [False]   # short strings of a shard share one watchdog (600 s per shard) instead of one timer per call
+_SHARD_TIMER = [False]   # short strings of a shard share one watchdog (150 s per shard) instead of one timer per call
 
 
 class Timeout(BaseException):
@@ -186,14 +186,14 @@ def run(task):
     if arg[0] == "strings":
         _, an, L, sh = arg
         w = None
-        signal.setitimer(signal.ITIMER_REAL, 600)
+        signal.setitimer(signal.ITIMER_REAL, 150)
         _SHARD_TIMER[0] = True
         try:
             for w in E1.nodes(ALPH[an], L, sh):
                 check("".join(w), r)
         except Timeout:
             r.violation("timeout", {"input": "".join(w), "compatible": None, "attribute": None},
-                        "shard watchdog (600 s) expired while decoding %r" % ("".join(w),))
+                        "shard watchdog (150 s) expired while decoding %r" % ("".join(w),))
         finally:
             signal.setitimer(signal.ITIMER_REAL, 0)
             _SHARD_TIMER[0] = False
